@@ -76,6 +76,13 @@ def build(ctx):
                 return Enum('Result', d, {0: Tup([Opaque('ExitStatus', 0)]), 1: Tup([Opaque('io::Error', 'status')])})
             eng.stub(r'Command::status$', status_stub, 'Command::status = Ok(status) or Err(io)')
             eng.stub(r'ExitStatus::success$', lambda e, s, a, c: succ, 'ExitStatus::success symbolic')
+            code_some, code_val = z3.Bool('rustfmt.code.is_some'), z3.BitVec('rustfmt.code', 32)
+
+            def code_stub(eng_, st_, args, ci, cs=code_some, cvv=code_val, sc=succ):
+                # std contract: success() <=> code() == Some(0); a child killed by a signal has no code
+                st_.assume(sc == z3.And(cs, cvv == 0))
+                return Enum('Option', z3.If(cs, z3.BitVecVal(1, 64), z3.BitVecVal(0, 64)), {1: Tup([BV(cvv, 'i32')])})
+            eng.stub(r'ExitStatus::code$', code_stub, 'ExitStatus::code: Some(c) or None (killed by a signal), success() <=> code() == Some(0)')
             outs = ctx.check_outcomes(eng.run(rr, [files, ranges], st), 'run_rustfmt')
             for i, o in enumerate(outs):
                 tag = 'run_rustfmt/files%d-ranges%d/p%d' % (ne_files, ne_ranges, i)
@@ -343,15 +350,17 @@ def cli_findings():
     os.makedirs(d)
     logp = os.path.join(d, 'calls.log')
     standin = os.path.join(d, 'standin.sh')
-    open(standin, 'w').write('#!/bin/bash\nprintf "%%s\\n" "$@" > %s\nexit ${STANDIN_EXIT:-0}\n' % logp)
+    open(standin, 'w').write('#!/bin/bash\nprintf "%%s\\n" "$@" > %s\nif [ -n "${STANDIN_SIGNAL:-}" ]; then kill -$STANDIN_SIGNAL $$; fi\nexit ${STANDIN_EXIT:-0}\n' % logp)
     os.chmod(standin, 0o755)
     found = []
 
-    def run(diff, args, standin_exit=0):
+    def run(diff, args, standin_exit=0, signal=None):
         if os.path.exists(logp):
             os.remove(logp)
         env = run_env()
         env.update({'RUSTFMT': standin, 'STANDIN_EXIT': str(standin_exit)})
+        if signal:
+            env['STANDIN_SIGNAL'] = str(signal)
         r = subprocess.run([fd] + args, input=diff, capture_output=True, text=True, env=env, timeout=60, cwd=d)
         calls = open(logp).read().split('\n') if os.path.exists(logp) else None
         return r, calls
@@ -375,6 +384,10 @@ def cli_findings():
     r, calls = run(DIFF, ['-p', '1'], standin_exit=1)
     if r.returncode == 0:
         found.append('failing rustfmt but format-diff exits 0')
+    for sig in (9, 6, 15):
+        r, calls = run(DIFF, ['-p', '1'], signal=sig)
+        if r.returncode == 0:
+            found.append('rustfmt killed by signal %d but format-diff exits 0' % sig)
     shutil.rmtree(d, ignore_errors=True)
     return found
 
